@@ -27,6 +27,7 @@ def h_fault(k0: int, k1: int, k2: int, k3: int, k4: int, k5: int, k6: int, k7: i
                 fkind = nm
     Wa, Ws = World("a", fault_at=x, fault=fault, fault_kind=fkind), World("s", fault_at=x, fault=fault, fault_kind=fkind)
     Wa.aclose_ret = P("aclose_ret")
+    Wa.repoll_events = Ws.repoll_events = P("repoll", False)
     D = Driver(Wa, sync_only=True)
     try:
         out_a, end_a, _h = run_async(op, kind, Wa, D, d, o)
@@ -231,6 +232,10 @@ def jobs(tier):
             continue  # no callable
         add(op, 1, 2, 4, fl="agen", ffl="def", Z=(3, 3), yonly=(7, 7))
         add(op, 1, 2, 4, fl="acls", ffl="adef", Z=(3, 3), yonly=(7, 7))
+    # asking an exhausted class-based source again counts as a use (and may fail) in these jobs:
+    # aggregations must make the same end-of-source checks as their counterparts
+    for op in ("nlargest", "nsmallest", "min", "max", "reduce", "sorted", "list", "tuple", "all", "any"):
+        add(op, 1, 2, 4, fl="acls", ffl="def", Z=(2, 2), repoll=True, yonly=(0, 2))
     for key in ("none", "def", "adef"):
         for fl in ("agen", "acls"):
             J.append({"module": "c06", "fn": "h_fault_groupby", "part": {"N": (2 if q else 3), "key": key, "fl": fl}, "timeout": T})
